@@ -259,6 +259,8 @@ def main(argv=None):
         if P.get("driver"):
             os.makedirs(replay_dir, exist_ok=True)
             out_json = os.path.join(replay_dir, "native_search.json")
+            if os.path.exists(out_json):
+                os.remove(out_json)             # never read a result left by an earlier run
             try:
                 rc, out, err = native(P["driver"], ["--search", "--tier", tier, "--seed", str(seed), "--out", out_json],
                                       REPO, timeout=P.get("driver_timeout", 900))
@@ -306,6 +308,8 @@ def main(argv=None):
         json.dump({"property": prop, "obligation": sr["name"], "detail": sr["detail"], "native_failing_inputs": []}, open(rp, "w"), indent=1)
         if sr["name"].startswith(("scan:no-leak", "scan:fresh-store", "scan:export-frame", "scan:export-determinism", "scan:spec-tables", "scan:atomic-write")):
             violations.append((sr["name"], rp, " no-failing-input-found"))
+        elif sr["name"].startswith("scan:export-purity"):
+            undecided.append(sr["name"] + " (an exporter keeps state across calls that is not among the recorded stores: the output may depend on the call history; needs review - " + str(sr["detail"])[-260:] + ")")
         else:
             undecided.append(sr["name"] + " (a function outside the contracts writes this field: it needs a contract)")
     native_fail = [f for f in native_fail if f.get("key") not in matched_native]
@@ -408,6 +412,9 @@ def main(argv=None):
         return 2
     if len(all_obs) + n_triv == 0 and not P.get("bounded_only"):
         print("ENGINE-ERROR zero obligations")
+        return 3
+    if driver_result is not None and not driver_result.get("evaluations"):
+        print("ENGINE-ERROR the bounded battery was started and left no result (crash or timeout): %s" % str(driver_result.get("tail"))[-300:])
         return 3
     if P.get("bounded_only") and not (driver_result and driver_result.get("evaluations")):
         print("ENGINE-ERROR the bounded battery did not run")
